@@ -296,12 +296,13 @@ Lemma sec_delete_shape : forall batch s key, sec_inv batch s ->
   sec_delete s key =
   ({| s_start := s_start s; s_end := s_end s;
       s_values := del_list (s_values s) skey; s_overflow := del_list (s_overflow s) skey |},
-   match l_find (s_overflow s) skey with
-   | Some o => ssz o
-   | None => match l_find (s_values s) skey with
+   let vr := match l_find (s_values s) skey with
              | Some v => if (0 <? ssz v)%Z then ssz v else 0%Z
              | None => 0%Z
-             end
+             end in
+   match l_find (s_overflow s) skey with
+   | Some o => if size_is_valid (ssz o) then ssz o else vr
+   | None => vr
    end).
 Proof.
   intros batch s key [A B C D] skey. unfold sec_delete. fold skey.
@@ -346,12 +347,9 @@ Lemma sec_delete_spec : forall batch s key s' ret, sec_inv batch s ->
   length (s_values s') = length (s_values s) /\
   (forall k', sec_lookup s' k' = if k' =? skey then option_map neg_if_live (sec_lookup s skey)
                                  else sec_lookup s k') /\
-  ret = match l_find (s_overflow s) skey with
-        | Some o => ssz o
-        | None => match sec_lookup s skey with
-                  | Some v => if (0 <? ssz v)%Z then ssz v else 0%Z
-                  | None => 0%Z
-                  end
+  ret = match sec_lookup s skey with
+        | Some v => if (0 <? ssz v)%Z then ssz v else 0%Z
+        | None => 0%Z
         end /\
   map sk (s_values s') = map sk (s_values s) /\ map sk (s_overflow s') = map sk (s_overflow s).
 Proof.
@@ -364,7 +362,13 @@ Proof.
   - intros k'. unfold sec_lookup. cbn [s_values s_overflow]. rewrite !del_list_find.
     destruct (N.eqb_spec k' skey) as [->|Hne]; [|reflexivity].
     destruct (l_find (s_overflow s) skey); reflexivity.
-  - unfold sec_lookup. destruct (l_find (s_overflow s) skey); reflexivity.
+  - cbv zeta. unfold sec_lookup. destruct (l_find (s_overflow s) skey) as [o|] eqn:Fo; [|reflexivity].
+    (* an overflow key is not in values *)
+    destruct (l_find_some _ _ _ Fo) as [Hin Hk].
+    assert (Hnv : l_find (s_values s) skey = None).
+    { apply l_find_none_keys. apply (si_disj _ _ Hinv). rewrite <- Hk. apply in_map. assumption. }
+    rewrite Hnv. unfold size_is_valid, tombstone.
+    destruct (Z.ltb_spec 0 (ssz o)); [|reflexivity]. destruct (Z.eqb_spec (ssz o) (-1)); [lia|reflexivity].
   - apply del_list_keys.
   - apply del_list_keys.
 Qed.
